@@ -138,26 +138,25 @@ fn run_linter(
         external_linter: None,
       })?;
 
-      let mut number_of_errors = diagnostics.len();
-      if !parsed_source.diagnostics().is_empty() {
-        number_of_errors += parsed_source.diagnostics().to_vec().len();
-        parsed_source.diagnostics().to_vec().iter().for_each(
-          |parsing_diagnostic| {
-            eprintln!("{}", parsing_diagnostic.display());
-          },
-        );
-      }
+      // Recoverable parse diagnostics are kept with the file's result and
+      // printed after all files have been linted, so that the output does not
+      // depend on how the workers are scheduled.
+      let parse_diagnostics = parsed_source.diagnostics().to_vec();
+      let number_of_errors = diagnostics.len() + parse_diagnostics.len();
 
       error_counts.fetch_add(number_of_errors, Ordering::Relaxed);
 
       let mut lock = file_diagnostics.lock().unwrap();
 
-      lock.insert(file_path, diagnostics);
+      lock.insert(file_path, (parse_diagnostics, diagnostics));
 
       Ok(())
     })?;
 
-  for d in file_diagnostics.lock().unwrap().values() {
+  for (parse_diagnostics, d) in file_diagnostics.lock().unwrap().values() {
+    for parsing_diagnostic in parse_diagnostics {
+      eprintln!("{}", parsing_diagnostic.display());
+    }
     diagnostics::display_diagnostics(d, format);
   }
 
